@@ -108,7 +108,8 @@ def run(prog, names=None):
         got = [a for a in f.arg_names]
         want = row["params"]
         ext = row.get("extensions", [])
-        if got[:len(want)] == want and all(x in ext for x in got[len(want):]):
+        # `preserve_order` is the trailing parameter every object-walking builtin gains under feature exp-preserve-order
+        if got[:len(want)] == want and all(x in ext or x == "preserve_order" for x in got[len(want):]):
             obs.append(ok(RULE, "std.%s:signature" % name, st, "(%s)" % ", ".join(got), nontrivial=len(want) > 1))
         else:
             obs.append(bad(RULE, "std.%s:signature" % name, st, "std.%s is bound to %s(%s) but is documented as (%s): named-argument calls break, or the registry "
